@@ -2898,9 +2898,9 @@ def transform_compressible(items, constants, labels):
             elif compressed == 'c.addi16sp':
                 inst = CIATypeInstruction(item.line, compressed, item.imm)
             elif compressed == 'c.srli':
-                inst = CBTypeInstruction(item.line, compressed, item.rd, Arithmetic(item.rs2))
+                inst = CBTypeInstruction(item.line, compressed, item.rd, Arithmetic(str(lookup_register(item.rs2))))
             elif compressed == 'c.srai':
-                inst = CBTypeInstruction(item.line, compressed, item.rd, Arithmetic(item.rs2))
+                inst = CBTypeInstruction(item.line, compressed, item.rd, Arithmetic(str(lookup_register(item.rs2))))
             elif compressed == 'c.andi':
                 inst = CBTypeInstruction(item.line, compressed, item.rd, item.imm)
             elif compressed == 'c.sub':
@@ -2918,7 +2918,7 @@ def transform_compressible(items, constants, labels):
             elif compressed == 'c.bnez':
                 inst = CBTypeInstruction(item.line, compressed, item.rs1, item.imm)
             elif compressed == 'c.slli':
-                inst = CITypeInstruction(item.line, compressed, item.rd, Arithmetic(item.rs2))
+                inst = CITypeInstruction(item.line, compressed, item.rd, Arithmetic(str(lookup_register(item.rs2))))
             elif compressed == 'c.lwsp':
                 inst = CITypeInstruction(item.line, compressed, item.rd, item.imm)
             elif compressed == 'c.jr':
